@@ -1,6 +1,7 @@
 package main
 
 import (
+	"encoding/binary"
 	"fmt"
 	"strings"
 
@@ -129,6 +130,11 @@ func crashOracle(w *World, i int, op Op, obs string) *Mismatch {
 			js = append(js, p)
 			js = append(js, last.Data[:len(last.Data)-1-r.Intn(11)])
 		}
+		// look-alikes crafted for the position they will land at (end of the image): magic framing, offset and
+		// lengths consistent, but not a root record: wrong version, garbled JSON, header length != trailer length
+		for variant := 0; variant < 3; variant++ {
+			js = append(js, []byte{0xfe, byte(variant)}) // placeholder, expanded per image in check()
+		}
 		// byte-exact copies of OLDER root records of this history (their recorded offset no longer
 		// matches the position they are copied to, so they are not self-consistent root records)
 		for q := len(w.Roots) - 2; q >= 0 && q >= len(w.Roots)-4; q-- {
@@ -158,6 +164,9 @@ func crashOracle(w *World, i int, op Op, obs string) *Mismatch {
 			}
 			if ji > 0 {
 				c03.Junk++
+			}
+			if len(j) == 2 && j[0] == 0xfe {
+				j = lookAlikeRoot(int64(len(img)), int(j[1]))
 			}
 			cand := append(append([]byte{}, img...), j...)
 			if complete && j != nil {
@@ -271,4 +280,29 @@ func checkC03(rep *Report, rng *Rng, tier string) {
 	rep.Extra["junk_images"] = c03.Junk
 	rep.Extra["continued_after_recovery"] = c03.Continued
 	rep.Extra["images_also_decoded_by_coq_model"] = c03.ModelDecoded
+}
+
+// lookAlikeRoot builds bytes that pass the magic, offset and trailer-length tests of a root record when
+// appended at file offset off, but are not a complete, self-consistent root record.
+func lookAlikeRoot(off int64, variant int) []byte {
+	js := []byte(`{"zz":{"o":1,"l":52}}`)
+	version := uint32(4)
+	switch variant {
+	case 0:
+		version = 3
+	case 1:
+		js = []byte(`{"zz":{"o":1,"l":`)
+	}
+	length := uint32(12 + 4 + 4 + len(js) + 8 + 4 + 12)
+	hdrLen := length
+	if variant == 2 {
+		hdrLen = length + 1
+	}
+	b := []byte("0g1t2r0g1t2r")
+	b = binary.BigEndian.AppendUint32(b, version)
+	b = binary.BigEndian.AppendUint32(b, hdrLen)
+	b = append(b, js...)
+	b = binary.BigEndian.AppendUint64(b, uint64(off))
+	b = binary.BigEndian.AppendUint32(b, length)
+	return append(b, []byte("3e4a5p3e4a5p")...)
 }
